@@ -3,6 +3,8 @@
 These two functions are what every block, branch, loop body and call body goes through: a fresh
 scope is pushed on the given chain, the new bindings are declared in it in order, and the statement
 sequence runs there; whatever it signals is the result, unchanged."""
+import re
+
 import extract
 import parts
 import name_bind
@@ -112,8 +114,10 @@ def build(read):
             declare_all(w0, bs, 0) == (true, new_scopes.world()),
         decreases bs.len() - i"""}}
     f1 = extract.annotate_fn(hdr + body, spec=SPEC, attrs="#[verifier::exec_allows_no_decreases_clause]\n#[verifier::loop_isolation(false)]\n#[verifier::allow_complex_invariants]", loops=loops)
+    mpat = re.search(r"let \((\w+), (\w+)\) = match __it\.next\(\)", f1)     # (the names of the loop's pattern are the code's own)
+    pat = f"({mpat.group(1)}, {mpat.group(2)})" if mpat else "(lhs, rhs)"
     f1 = extract.rewrite_once(f1, "Some(__x) => __x, None => break };\n",
-                              "Some(__x) => __x, None => break };\n proof { i = i + 1; assert((lhs, rhs) == bs[i - 1]); }\n", "eval_stmts: ghost index")
+                              "Some(__x) => __x, None => break };\n proof { i = i + 1; assert(" + pat + " == bs[i - 1]); }\n", "eval_stmts: ghost index")
     f2 = extract.annotate_fn(f2, spec=SPEC2, attrs="#[verifier::exec_allows_no_decreases_clause]\n")
     b.edits.append("D3: std HashMap replaced by an opaque type with `new()` (only passed to new_from_push)")
 
